@@ -415,10 +415,11 @@ fn gen_case(rng: &mut Rng, ctx: &Ctx, pools: &Pools) -> CliCase {
     let mut argv: Vec<String> = vec![];
     let mut flagsv: Vec<Vec<String>> = vec![];
     if compressed {
-        flagsv.push(match rng.below(4) {
+        flagsv.push(match rng.below(5) {
             0 => vec!["--style".into(), "compressed".into()],
             1 => vec!["-s".into(), "compressed".into()],
             2 => vec!["--style=compressed".into()],
+            3 => vec!["-t".into(), "compressed".into()],
             _ => vec!["-s".into(), "COMPRESSED".into()],
         });
     } else if rng.chance(0.3) {
@@ -433,6 +434,9 @@ fn gen_case(rng: &mut Rng, ctx: &Ctx, pools: &Pools) -> CliCase {
     if no_charset {
         flagsv.push(vec!["--no-charset".into()]);
     }
+    if rng.chance(0.1) {
+        flagsv.push(vec!["--precision".into(), "5".into()]);
+    }
     rng.shuffle(&mut flagsv);
     for f in flagsv {
         argv.extend(f);
@@ -440,11 +444,12 @@ fn gen_case(rng: &mut Rng, ctx: &Ctx, pools: &Pools) -> CliCase {
     // load paths keep their relative order
     let mut lp_args: Vec<String> = vec![];
     for lp in &load_paths {
-        match rng.below(3) {
+        match rng.below(4) {
             0 => {
                 lp_args.push("-I".into());
                 lp_args.push(lp.clone());
             }
+            3 => lp_args.push(format!("-I{}", lp)),
             1 => {
                 lp_args.push("--load-path".into());
                 lp_args.push(lp.clone());
@@ -466,9 +471,21 @@ fn gen_case(rng: &mut Rng, ctx: &Ctx, pools: &Pools) -> CliCase {
         argv.push("--stdin".into());
         stdin = Some(text.clone().into_bytes());
     } else {
-        let name = format!("in{}.{}", tagn % 7, ext);
+        // the input may live in a subdirectory and import a sibling: relative imports start
+        // at the file's own directory, not at the working directory
+        let in_sub = ext != "css" && rng.chance(0.25);
+        let mut text = text.clone();
+        let name = if in_sub { format!("src/in{}.{}", tagn % 7, ext) } else { format!("in{}.{}", tagn % 7, ext) };
+        if in_sub {
+            files.push(("src/_sibling.scss".into(), b".sibling { of: src; }\n".to_vec()));
+            files.push(("_sibling.scss".into(), b".sibling { of: cwd; }\n".to_vec()));
+            text = format!("@import \"sibling\"{}\n{}", semi, text);
+        }
         if !missing {
             files.push((name.clone(), text.clone().into_bytes()));
+        }
+        if rng.chance(0.1) {
+            argv.push("--".into());
         }
         argv.push(name.clone());
         entry = Some(name);
